@@ -1,16 +1,20 @@
 ------------------------------- MODULE Trace_RpycFiles -------------------------------
 (* sequences of local read / write sizes recorded during real upload_file / download_file runs, validated against the  *)
-(* copy loop of RpycFiles.  A trace is [size, chunk, events]; an event is [op, n].                                     *)
+(* copy loop of RpycFiles.  A trace is [size, chunk, pre, events]; an event is [op, n]; pre is the length of the         *)
+(* destination before the call; the first event is "open", the last one "done" with the destination's length afterwards.*)
 EXTENDS RpycFiles, TLCExt
 CONSTANT NTraces
 VARIABLES tid, l
 Traces == JsonDeserialize(IOEnv.TRACE_FILE)
 TraceInit == /\ tid \in 1..NTraces /\ l = 1
              /\ size = Traces[tid].size /\ chunk = Traces[tid].chunk
-             /\ pos = 0 /\ written = 0 /\ nreads = 0 /\ lastread = 0 /\ phase = "read"
+             /\ pos = 0 /\ written = 0 /\ nreads = 0 /\ lastread = 0 /\ phase = "open"
+             /\ dstlen = Traces[tid].pre
 TraceNext == /\ l <= Len(Traces[tid].events)
              /\ LET e == Traces[tid].events[l] IN
-                  CASE e.op = "read" -> Read /\ lastread' = e.n
+                  CASE e.op = "open" -> Open
+                    [] e.op = "done" -> phase = "done" /\ dstlen = e.n /\ UNCHANGED cvars
+                    [] e.op = "read" -> Read /\ lastread' = e.n
                     [] e.op = "write" -> Write /\ lastread = e.n
                     [] OTHER -> FALSE
              /\ l' = l + 1 /\ UNCHANGED tid
